@@ -906,6 +906,9 @@ func SearchStreams(ctx context.Context, indexes []*Reader, limitIDs *bitmask.Lon
 	qs = qs.InlineTagFilters(tagDetails)
 
 	var sortingLess func(a, b *Stream) bool
+	// order by the first sort key alone (nil if it is the only key): the order
+	// in which the sorting lookup visits the streams
+	var sortingLookupLess func(a, b *Stream) bool
 	switch len(sorting) {
 	case 0:
 		// default search order is -ftime
@@ -936,6 +939,7 @@ func SearchStreams(ctx context.Context, indexes []*Reader, limitIDs *bitmask.Lon
 				sorters = append(sorters, df)
 			}
 		}
+		sortingLookupLess = sorters[0]
 		sortingLess = func(a, b *Stream) bool {
 			for _, sorter := range sorters {
 				if sorter(a, b) {
@@ -1105,7 +1109,7 @@ func SearchStreams(ctx context.Context, indexes []*Reader, limitIDs *bitmask.Lon
 				}
 				queryParts = append(queryParts, queryPart)
 			}
-			err := idx.searchStreams(ctx, &results, allResults, queryParts, groupingData, sorter, resultLimit, sortingLookup)
+			err := idx.searchStreams(ctx, &results, allResults, queryParts, groupingData, sorter, resultLimit, sortingLookup, sortingLookupLess)
 			if err != nil {
 				return nil, false, nil, err
 			}
@@ -1126,7 +1130,13 @@ func SearchStreams(ctx context.Context, indexes []*Reader, limitIDs *bitmask.Lon
 	return results.streams[skip:], results.resultDropped != 0, dataRegexes, nil
 }
 
-func (r *Reader) searchStreams(ctx context.Context, result *resultData, subQueryResults map[string]resultData, queryParts []queryPart, grouper *grouper, sortingLess func(a, b *Stream) bool, limit uint, sortingLookup func() ([]uint32, error)) error {
+func (r *Reader) searchStreams(ctx context.Context, result *resultData, subQueryResults map[string]resultData, queryParts []queryPart, grouper *grouper, sortingLess func(a, b *Stream) bool, limit uint, sortingLookup func() ([]uint32, error), sortingLookupLess func(a, b *Stream) bool) error {
+	// a stream that is not better than the last result ends a scan in sorting
+	// lookup order only if it is worse by the key of that lookup: streams that
+	// tie on it may still be followed by one that a later sort key puts first
+	noBetterStreamFollows := func(ss *Stream) bool {
+		return sortingLookupLess == nil || sortingLookupLess(result.streams[limit-1], ss)
+	}
 	// apply filters to lookup results or all streams, if no lookups could be used
 	filterAndAddToResult := func(activeQueryParts bitmask.ShortBitmask, si uint32) (bool, error) {
 		if err := ctx.Err(); err != nil {
@@ -1150,7 +1160,7 @@ func (r *Reader) searchStreams(ctx context.Context, result *resultData, subQuery
 
 		// check if the sorting and limit would allow this stream
 		if limitReached && !sortingLess(ss, result.streams[limit-1]) {
-			return true, nil
+			return noBetterStreamFollows(ss), nil
 		}
 
 		// check if the sorting within the groupKey allow this stream
@@ -1248,7 +1258,7 @@ func (r *Reader) searchStreams(ctx context.Context, result *resultData, subQuery
 			} else {
 				// we have a limit and are worse than the last
 				result.resultDropped++
-				return true, nil
+				return noBetterStreamFollows(ss), nil
 			}
 		}
 
